@@ -5,7 +5,7 @@ from framework import Plugin
 import trees
 
 LABELS_OK = ["utf-8", "UTF8", " utf-8\n", "koi8-r", "windows-1252", "latin1", "shift_jis", "x-sjis", "gbk", "utf-16le",
-             "utf-16be", "utf-16", "iso-8859-2", "big5", "euc-jp"]
+             "utf-16be", "utf-16", "iso-8859-2", "big5", "euc-jp", "x-user-defined"]
 LABELS_BAD = ["bogus", "", "utf-7", "utf-32", "é", "utf_8", "none"]
 PIECES = [b"<meta charset=%s>", b"<meta charset=\"%s\">", b"<meta charset='%s'>", b"<META CHARSET=%s>", b"<meta/charset=%s>",
           b"<meta http-equiv=content-type content=\"text/html; charset=%s\">",
@@ -13,7 +13,12 @@ PIECES = [b"<meta charset=%s>", b"<meta charset=\"%s\">", b"<meta charset='%s'>"
           b"<meta name=x content=y charset=%s>", b"<meta charset=bogus charset=%s>", b"<meta charset = %s >",
           b"<meta\ncharset=%s\n>", b"<metacharset=%s>", b"<meta charset=%s", b"<meta http-equiv=refresh content='charset=%s'>",
           b"<meta content='charset=%s' http-equiv='content-type'", b"<meta content=charset=%s;x http-equiv=content-type>",
-          b"<meta http-equiv=content-type content='text/html; charset = \"%s\"'>"]
+          b"<meta http-equiv=content-type content='text/html; charset = \"%s\"'>",
+          # forms from the independent audit (audit/tokenizer-stream-serializer.md, A.2-A.10)
+          b"<metax a=\"<meta charset=%s>\">", b"<meta http-equiv=content-type content=\"text/html; charset=%s; foo\">",
+          b"<meta http-equiv=content-type content=\"charset charset=%s\">", b"<meta content=\"text/html;charset=%s;x\" http-equiv=content-type>",
+          b"<meta charset=bogus content=\"text/html; charset=%s\" http-equiv=content-type>", b"<metadata charset=%s>",
+          b"<meta charset=%s<x>", b"<a<meta charset=%s>", b"<!--><title><meta charset=%s></title>"]
 NOISE = [b"<!-- <meta charset=koi8-r> -->", b"<!--", b"-->", b"<title>", b"</title>", b"<a href='<meta charset=gbk>'>",
          b"<p ", b">", b"<", b"</x <meta charset=big5>", b"<!x <meta charset=big5>>", b"<?x?>", b"text ", b"\x00", b"=",
          b"<script>", b"'", b"\"", b"</ ", b"<a b=c d='e' f=\"g\" h>", b"x" * 40, b"<1>", b"</>", b"<b/>"]
@@ -107,7 +112,8 @@ def spec_charset_from_content(v):
 
 
 def dev_content(v):
-    """html5lib's ContentAttrParser: only the first 'charset' is considered; an unquoted value ends at whitespace only"""
+    """html5lib's ContentAttrParser BEFORE its repair (kept for reference, unused): only the first 'charset' was
+    considered and an unquoted value ended at whitespace only"""
     v = v.lower()
     i = v.find(b"charset")
     if i < 0:
@@ -129,6 +135,11 @@ def dev_content(v):
     while j < len(v) and v[j] not in b"\t\n\x0c\r ":
         j += 1
     return v[p:j]
+
+
+def fin(name):
+    """the prescan's last steps: UTF-16BE/LE means UTF-8, x-user-defined means windows-1252"""
+    return "utf-8" if name in ("utf-16le", "utf-16be") else "windows-1252" if name == "x-user-defined" else name
 
 
 def spec_prescan(s, dev=False):
@@ -162,16 +173,16 @@ def spec_prescan(s, dev=False):
                     if name == b"http-equiv":
                         got_pragma = value == b"content-type"
                         if got_pragma and charset is not None and need_pragma:
-                            return "utf-8" if charset.name in ("utf-16le", "utf-16be") else charset.name
+                            return fin(charset.name)
                     elif name == b"charset":
                         try:
                             enc = webencodings.lookup(value.decode("ascii"))
                         except UnicodeDecodeError:
                             enc = None
                         if enc is not None:
-                            return "utf-8" if enc.name in ("utf-16le", "utf-16be") else enc.name
+                            return fin(enc.name)
                     elif name == b"content":
-                        e = dev_content(value)
+                        e = spec_charset_from_content(value)
                         if e is not None:
                             try:
                                 enc = webencodings.lookup(e.decode("ascii"))
@@ -179,7 +190,7 @@ def spec_prescan(s, dev=False):
                                 enc = None
                             if enc is not None:
                                 if got_pragma:
-                                    return "utf-8" if enc.name in ("utf-16le", "utf-16be") else enc.name
+                                    return fin(enc.name)
                                 charset, need_pragma = enc, True
                     continue
                 if name == b"http-equiv":
@@ -205,9 +216,7 @@ def spec_prescan(s, dev=False):
             if dev or need_pragma is None or (need_pragma and not got_pragma) or charset is None:
                 p += 0
                 continue
-            if charset.name in ("utf-16le", "utf-16be"):
-                return "utf-8"
-            return charset.name
+            return fin(charset.name)
         if s[p:p + 1] == b"<" and p + 1 < n and (chr(s[p + 1]).isalpha() and s[p + 1] < 128):
             p += 1
             while p < n and s[p] not in b"\t\n\x0c\r >" and not (dev and s[p] == 0x3C):
@@ -303,7 +312,8 @@ class C06(Plugin):
         return out
 
     def known_witnesses(self):
-        return {"C06-prescan-syntactic-deviations": {"k": 0, "b": list(b"<meta charset=bogus charset=utf-8>")}}
+        return {"C06-prescan-syntactic-deviations": {"k": 0, "b": list(b"<meta charset=bogus charset=utf-8>")},
+                "C06-truncated-sequence-at-eof": {"k": 4, "b": list(b"<meta charset=utf-8><p>a\xe2\x82"), "args": [None] * 5}}
 
     def cases(self, rng, n, tier):
         labs = [x.encode() for x in LABELS_OK] + [x.encode("utf-8") for x in LABELS_BAD]
@@ -317,7 +327,9 @@ class C06(Plugin):
             elif r < 0.2:
                 lab = rng.choice(labs)
                 v = rng.choice([b"text/html; charset=%s", b"charset=\"%s\"", b"charset = '%s' x", b"charset", b"charset=",
-                                b"xcharset=%s;", b"charset %s", b"CHARSET=%s", b"charset='%s", b"a charset=%s b"])
+                                b"xcharset=%s;", b"charset %s", b"CHARSET=%s", b"charset='%s", b"a charset=%s b",
+                                b"text/html; charset=%s; foo", b"charset charset=%s", b"charset;charset = %s;", b"charsetcharset=%s",
+                                b"charset=%s;charset=utf-8", b"charset x charset y charset=\"%s\""])
                 v = v % lab if b"%s" in v else v
                 yield {"k": 2, "s": v.decode("latin-1")}
             else:
@@ -334,10 +346,10 @@ class C06(Plugin):
                 q = rng.random()
                 if q < 0.25:
                     # whole parse: one or two declarations, possibly beyond the prescan window, then non-ASCII text
-                    labs2 = [x.encode() for x in LABELS_OK[:11]]
+                    labs2 = [x.encode() for x in LABELS_OK[:11] + ["utf-16", "x-user-defined", "bogus"]]
                     body = b"<p>\xf0\xd2\xc9\xd7\xc5\xd4 caf\xc3\xa9</p>"
                     pad = rng.choice([b"", b"", b"<!--" + b"x" * 1100 + b"-->"])
-                    metas = b"".join(rng.choice(PIECES[:8]) % rng.choice(labs2) for _ in range(rng.randint(0, 2)))
+                    metas = b"".join(rng.choice(PIECES[:8] + PIECES[18:23]) % rng.choice(labs2) for _ in range(rng.randint(0, 2)))
                     args = [rng.choice([None, None, None, None] + LABELS_OK[:8]) for _ in range(5)]
                     if rng.random() < 0.7:
                         args[0] = args[1] = None
@@ -348,7 +360,8 @@ class C06(Plugin):
                                           b"<table><tr><td>1</td></tr></table><table><tbody>"])
                         yield {"k": 4, "b": list(pad + pre + metas + b"<td>\xc1\xc2\xd7</td></tr></table>" + body), "args": args}
                         continue
-                    yield {"k": 4, "b": list(pad + metas + body + rng.choice([b"", metas])), "args": args}
+                    tail = rng.choice([b"", b"", b"", metas, b"\xe2\x82", b"\xc3", b"\x81", b"\xf0\x9f\x98"])
+                    yield {"k": 4, "b": list(pad + metas + body + tail), "args": args}
                 elif q < 0.6:
                     yield {"k": 0, "b": list(b)}
                 else:
@@ -380,31 +393,32 @@ class C06(Plugin):
             e = webencodings.lookup(x)
             return e.name if e else None
         bom = "utf-8" if b.startswith(b"\xef\xbb\xbf") else None
-        if bom is None and b[:4] not in (b"\xff\xfe\x00\x00", b"\x00\x00\xfe\xff"):
+        if bom is None:
             bom = "utf-16le" if b.startswith(b"\xff\xfe") else "utf-16be" if b.startswith(b"\xfe\xff") else None
         ov, tr, pa, li, de = [lk(a) for a in args]
         for c in (bom, ov, tr):
             if c:
                 return c, True
         meta = _inputstream.EncodingParser(b[:1024]).getEncoding()
-        meta = meta.name if meta else None
-        if meta in ("utf-16le", "utf-16be"):
-            meta = "utf-8"
+        meta = fin(meta.name) if meta else None
         if pa and pa.startswith("utf-16"):
             pa = None
         tentative = [x for x in (meta, pa, li, de, "windows-1252") if x][0]
         doc = html5lib.parse(webencodings.lookup(tentative).codec_info.streamreader(io.BytesIO(b), "replace").read(),
                              treebuilder="dom")
         for m in doc.getElementsByTagName("meta"):
+            # the standard's rule for a meta start tag in head: a charset attribute that yields an encoding, otherwise
+            # http-equiv=content-type with a content attribute that yields one; UTF-16 means UTF-8, x-user-defined
+            # means windows-1252
             label = None
             if m.hasAttribute("charset"):
                 label = lk(m.getAttribute("charset"))
-            elif m.hasAttribute("content") and m.getAttribute("http-equiv").lower() == "content-type":
-                r = _inputstream.ContentAttrParser(_inputstream.EncodingBytes(m.getAttribute("content").encode("utf-8"))).parse()
+            if label is None and m.hasAttribute("content") and m.getAttribute("http-equiv").lower() == "content-type":
+                r = spec_charset_from_content(m.getAttribute("content").encode("utf-8"))
                 label = lk(bytes(r)) if r is not None else None
-            if label is None or label in ("utf-16le", "utf-16be"):
+            if label is None:
                 continue
-            return label, False
+            return fin(label), False
         return tentative, False
 
     def encode(self, case):
@@ -441,7 +455,11 @@ class C06(Plugin):
             text = webencodings.lookup(enc).codec_info.streamreader(io.BytesIO(bytes(case["b"])), "replace").read()
             ref = html5lib.parse(text, treebuilder="dom")
             same = trees.coalesce(trees.dom_forest(doc)) == trees.coalesce(trees.dom_forest(ref))
-            return [enc, same]
+            # ... and as the bytes decode when the decoder is told that the input ends there
+            text2 = webencodings.lookup(enc).codec_info.decode(bytes(case["b"]), "replace")[0]
+            same2 = text2 == text or \
+                trees.coalesce(trees.dom_forest(doc)) == trees.coalesce(trees.dom_forest(html5lib.parse(text2, treebuilder="dom")))
+            return [enc, same, same2]
         st = _inputstream.HTMLBinaryInputStream(bytes(case["b"]), useChardet=False, **kw)
         return [st.charEncoding[0].name, st.charEncoding[1] == "certain"]
 
@@ -451,9 +469,7 @@ class C06(Plugin):
         if k == 0:
             b = bytes(case["b"])
             want = spec_prescan(b)
-            got = out[0] if out else None
-            if got in ("utf-16le", "utf-16be"):
-                got = "utf-8"
+            got = fin(out[0]) if out else None
             if want != got:
                 # the standard's algorithm with exactly the recorded deviations switched on
                 try:
@@ -462,12 +478,19 @@ class C06(Plugin):
                     dev = None
                 cls = "prescan-recorded-deviation" if dev == got else "prescan-differs-from-standard"
                 v.append((cls, repr((b[:200], got, want))))
+        if k == 2:
+            want = spec_charset_from_content(case["s"].encode("latin-1"))
+            got = out[0].encode("latin-1") if out else None
+            if want != got:
+                v.append(("content-charset-differs-from-standard", repr((case["s"], got, want))))
         if k == 4:
             want, _ = self._expected_final(bytes(case["b"]), case["args"])
             if out[0] != want:
                 v.append(("final-encoding-not-the-selected-one", repr((bytes(case["b"])[:120], case["args"], out[0], want))))
             if not out[1]:
                 v.append(("tree-differs-from-decoding-with-reported-encoding", repr((bytes(case["b"])[:120], out[0]))))
+            elif not out[2]:
+                v.append(("tree-differs-from-decoding-the-complete-input", repr((bytes(case["b"])[-60:], out[0]))))
         if k == 3:
             # the documented precedence, evaluated independently
             import webencodings
@@ -484,13 +507,11 @@ class C06(Plugin):
                 e = webencodings.lookup(x)
                 return e.name if e else None
             bom = "utf-8" if b.startswith(b"\xef\xbb\xbf") else None
-            if bom is None and b[:4] not in (b"\xff\xfe\x00\x00", b"\x00\x00\xfe\xff"):
+            if bom is None:
                 bom = "utf-16le" if b.startswith(b"\xff\xfe") else "utf-16be" if b.startswith(b"\xfe\xff") else None
             ov, tr, pa, li, de = [lk(a) for a in case["args"]]
             meta = _inputstream.EncodingParser(b[:1024]).getEncoding()   # (the window: first 1024 bytes)
-            meta = meta.name if meta else None
-            if meta in ("utf-16le", "utf-16be"):
-                meta = "utf-8"
+            meta = fin(meta.name) if meta else None
             if pa and pa.startswith("utf-16"):
                 pa = None
             chain = [(bom, True), (ov, True), (tr, True), (meta, False), (pa, False), (li, False), (de, False),
@@ -503,6 +524,20 @@ class C06(Plugin):
     def classify(self, cls, case, detail):
         if cls == "prescan-recorded-deviation":
             return "C06-prescan-syntactic-deviations"
+        if cls == "tree-differs-from-decoding-the-complete-input":
+            # is the only difference an incomplete multi-byte sequence at the very end of the input?
+            import webencodings
+            b = bytes(case["b"])
+            try:
+                enc = eval(detail)[1]
+                ci = webencodings.lookup(enc).codec_info
+                d = ci.incrementaldecoder("replace")
+                part = d.decode(b, False)
+                whole = ci.decode(b, "replace")[0]
+                if whole.startswith(part) and whole != part and set(whole[len(part):]) == {"\ufffd"}:
+                    return "C06-truncated-sequence-at-eof"
+            except Exception:
+                return None
         return None
 
     def nontrivial_key(self, case, out):
